@@ -32,7 +32,7 @@ func init() {
 		},
 		Quick:    300000,
 		Thorough: 20000000,
-		Require:  []string{"ops.overlap", "porcupine.ok"},
+		Require:  []string{"callback.readerIntruderTried", "callback.intruderTried", "ops.overlap", "porcupine.ok"},
 		Assume: []string{
 			"interleavings are explored at the granularity of the named yield points (between critical sections), not at instruction level",
 			"porcupine verdict Unknown (timeout) is counted as inconclusive, never reported",
